@@ -570,6 +570,31 @@ Qed.
 
 End Records.
 
+(* What is left of the premise since NumContentItem.__init__ writes Floating Point Value for EVERY value whose DS
+   string may be rounded (`fl`: floats, and ints of more than 16 characters - fix D111): no condition on the values
+   of the report any more, only one on the DS behaviour - where no Floating Point Value is written (ints of at most
+   16 characters, written digit by digit) the string reads back as the number. *)
+Definition ds_exact_without_fp (fl : Z -> bool) (trunc : Z -> Z) : Prop := forall x, fl x = false -> trunc x = x.
+Lemma values_ok_all fl trunc g : ds_exact_without_fp fl trunc -> values_ok fl trunc g.
+Proof. intros H m _. destruct (fl (snd m)) eqn:E; [now left|right; now apply H]. Qed.
+
+Theorem end_to_end_encoded_constructed fl trunc k pre gs f mname ename :
+  no_im pre = true -> Forall good gs -> qcheck k f = Ok tt -> ds_exact_without_fp fl trunc ->
+  let answer := filter (fun g => kind_eqb (g_kind g) k && satk k f g) gs in
+  query k (encode trunc (with_fp fl (report pre gs))) f = Ok (map (built fl trunc) answer) /\
+  map (fun it => acc_val k it mname ename) (map (built fl trunc) answer) = map (fun g => spec_acc k g mname ename) answer.
+Proof.
+  intros Hp Hg Hc Hd. apply end_to_end_encoded; auto. apply Forall_forall. intros g _. now apply values_ok_all.
+Qed.
+
+(* the premise cannot be dropped: a value without Floating Point Value whose DS string is rounded comes back changed
+   (the behaviour of ints of more than 16 characters before fix D111) *)
+Lemma ds_premise_needed :
+  let g := Group ImageK 1 1000 None None None [] (SourceImgs []) [(140, 33333)] [] None None None true in
+  good g /\ acc_measurements (built (fun _ => false) (fun _ => 33) g) None = [(140, 33)] /\
+  acc_measurements (built (fun _ => true) (fun _ => 33) g) None = [(140, 33333)].
+Proof. cbv zeta. split; [split; reflexivity|]. split; vm_compute; reflexivity. Qed.
+
 (* the accessor observation of the correspondence run for encoded reports (run_accessors_enc) is the record-level
    specification, i.e. what run_accessors shows for the report that was never encoded *)
 Theorem run_accessors_enc_exact floats tbl pre gs mname ename : no_im pre = true -> Forall good gs ->
